@@ -73,7 +73,7 @@ HARNESS(h_ringbuffer)
     Model m; m.n = 0;
     CHECK(rb->max_size() == CAP, "max_size()");
     for (unsigned step = 0; step < H; ++step) {
-        unsigned op = nondet_below(15);
+        unsigned op = nondet_below(18);
         uint8_t x = nondet_u8();
         OBS(op);
         switch (op) {
@@ -91,7 +91,12 @@ HARNESS(h_ringbuffer)
         case 11: { RB* c = new RB(CAP2); if (CAP2 > 0) c->emplace_back(x); *c = *rb; compare(*c, m, (int)m.n); CHECK(c->max_size() == rb->max_size(), "assignment takes max_size"); delete rb; rb = c; } break;
         case 12: { RB* c = new RB(CAP2); if (CAP2 > 0) c->emplace_back(x); *c = std::move(*rb); compare(*c, m, 0); CHECK(rb->size() == 0, "moved-from buffer is empty"); delete rb; rb = c; } break;
         case 13: { rb->deallocate(); m.n = 0; CHECK(g_live == 0, "deallocate destroys every element"); rb->allocate(CAP); } break;
-        default: { RB& self = *rb; *rb = self; } break;   // self-assignment
+        case 14: { RB& self = *rb; *rb = self; } break;   // self-assignment
+        case 15: { RB tmp(std::move(*rb)); *rb = tmp; compare(*rb, m, (int)m.n); CHECK(rb->max_size() == tmp.max_size(), "copy-assignment into a moved-from buffer"); } break;
+        case 16: { RB tmp(std::move(*rb)); *rb = std::move(tmp); } break;   // move-assignment into a moved-from buffer
+        default: { rb->deallocate(); m.n = 0; rb->allocate(CAP2); CHECK(rb->max_size() == CAP2, "allocate sets max_size");     // re-allocate with a different size, use it, then restore
+                   if (CAP2 > 0) { rb->emplace_back(x); CHECK(rb->size() == 1 && rb->front().ok(x), "buffer usable after deallocate + allocate"); rb->pop_front(); }
+                   rb->deallocate(); rb->allocate(CAP); } break;
         }
         compare(*rb, m, 0);
     }
